@@ -78,6 +78,12 @@ pub fn run(ctx: &Ctx, out: &mut Out) {
                 continue;
             }
         };
+        if has_mixed_trait_cycle(&program) {
+            // outside the property's fragment ("no mixed cycles")
+            out.count("program_with_mixed_cycle_skipped");
+            continue;
+        }
+        let two_growing = crate::ops::fp::growing_wrappers(&text) >= 2;
         let sig = signature(&program);
         out.count("programs");
         for gtext in goals {
@@ -98,6 +104,11 @@ pub fn run(ctx: &Ctx, out: &mut Out) {
                 }
             };
             for (name, choice) in solver_choices() {
+                if name == "recursive" && two_growing {
+                    // F34 (C09's): the recursive solver does not return in practice
+                    out.count("recursive_skipped_two_growing_impls");
+                    continue;
+                }
                 let _ = coinductive; // (F12 is fixed: the recursive solver now gives up with Ambiguous instead of diverging)
                 if !ctx.inflight(&format!("{} | {} | goal {{ {} }}", name, text.replace('\n', " | "), gtext)) {
                     out.count("skipped_crashed_earlier");
